@@ -196,6 +196,7 @@ OhpSk(c, p, skip) ==
   LET ing == IngressFromLink(c, p.via)
       eg == Hop(p, 0).eg
   IN IF "cons" \notin skip /\ ~Info(p, 0).cons THEN Discard("cons")
+     ELSE IF "len" \notin skip /\ p.fault = "len" THEN Discard("len")
      ELSE IF ing = 0 THEN
           IF "src" \notin skip /\ p.src # "L" THEN Discard("src")
           ELSE IF "nbr" \notin skip /\ (~Known(c, eg) \/ eg = 0) THEN Discard("nbr")
